@@ -30,7 +30,9 @@ Observes(b) ==
               "bad_control", "bad_transport", "bad_interleaved", "bad_ssrc", "wrong_session",
               "no_session", "huge_header"} -> {"resp_bad"}
     [] b \in {"wrong_cseq", "no_cseq", "silence", "inject_request", "inject_frame", "chatty"} -> {"timeout", "resp_ok"}
-    [] b \in {"dup", "delay", "stall_reads"} -> {"resp_ok"}    \* (stall_reads: answered, then nothing is read any more)
+    [] b \in {"dup", "delay", "stall_reads", "trail_frames"} -> {"resp_ok"}
+         \* (stall_reads: answered, then nothing is read any more; trail_frames: answered,
+         \*  interleaved frames follow the response at once)
     [] b \in {"close", "close_mid_response", "garbage_then_close"} -> {"eof"}
     [] OTHER -> {"timeout"}
 
@@ -79,7 +81,8 @@ FailFast == (~connUp /\ ~waiting /\ result = "ok") => FALSE
 AllBehaviours == {"ok", "status_404", "status_500", "redirect", "redirect_downgrade", "malformed", "bad_sdp",
                   "bad_control", "bad_transport", "bad_interleaved", "bad_ssrc", "wrong_session", "no_session",
                   "huge_header", "wrong_cseq", "no_cseq", "silence", "inject_request", "inject_frame", "chatty",
-                  "dup", "delay", "close", "close_mid_response", "garbage_then_close", "stall_reads"}
+                  "dup", "delay", "close", "close_mid_response", "garbage_then_close", "stall_reads",
+                  "trail_frames"}
 AllConfigs == {[mode |-> m, proto |-> p, creds |-> c] :
                  m \in {"play", "record"}, p \in {"tcp", "udp", "auto"}, c \in {TRUE, FALSE}}
 =============================================================================
